@@ -72,7 +72,7 @@ def random_atoms(rnd, n, maxlen=10):
     return ["".join(rnd.choice(ATOMS) for _ in range(rnd.randint(1, maxlen))) for _ in range(n)]
 
 
-def compare(ctx, strings, stream, flags="gsv", rel=1e-13):
+def compare(ctx, strings, stream, flags="gsv", rel=0.0):
     """Run both sides on the strings; record differences as a broken correspondence. Returns the
     implementation's outcomes."""
     exp = [real(s) for s in strings]
